@@ -1272,6 +1272,66 @@ func (g *c17Gen) session(maxSize int) []string {
 	return out
 }
 
+// consecutive `position` commands whose move lists are equal or extend each other while the declared start differs
+// (standard position / a TPS / another TPS of the same size), within one game and across teinewgame: every go must
+// analyse the start declared by ITS position command.  The moves are flat placements on squares empty in every start.
+func (g *c17Gen) sameMoves(maxSize int) []string {
+	r := g.r
+	size := 3 + r.Intn(4)
+	if size > maxSize {
+		size = maxSize
+	}
+	pickLive := func() *tak.Position {
+		for {
+			ps, _ := randomGame(r, tak.Config{Size: size}, 3+r.Intn(3*size), -1, false)
+			p := ps[2+r.Intn(len(ps)-2)]
+			if over, _ := p.GameOver(); !over && len(ps) > 2 {
+				return p
+			}
+		}
+	}
+	t1, t2 := pickLive(), pickLive()
+	var free []tak.Move
+	for y := 0; y < size; y++ {
+		for x := 0; x < size; x++ {
+			if len(t1.At(x, y)) == 0 && len(t2.At(x, y)) == 0 {
+				free = append(free, tak.Move{X: int8(x), Y: int8(y), Type: tak.PlaceFlat})
+			}
+		}
+	}
+	r.Shuffle(len(free), func(i, j int) { free[i], free[j] = free[j], free[i] })
+	if len(free) > 4 {
+		free = free[:4]
+	}
+	starts := [][]string{{"startpos"}, append([]string{"tps"}, strings.Fields(c17FormatTPS(absOf(t1)))...), append([]string{"tps"}, strings.Fields(c17FormatTPS(absOf(t2)))...)}
+	out := []string{g.join("teinewgame", strconv.Itoa(size))}
+	k := r.Intn(len(free) + 1)
+	if k == 0 && len(free) > 0 && r.Intn(3) > 0 {
+		k = 1
+	}
+	last := -1
+	for step := 0; step < 2+r.Intn(3); step++ {
+		st := r.Intn(3)
+		for st == last {
+			st = r.Intn(3)
+		}
+		last = st
+		words := append([]string{"position"}, starts[st]...)
+		words = append(words, "moves")
+		for _, m := range free[:k] {
+			words = append(words, c17FormatMove(m, 0))
+		}
+		out = append(out, g.join(words...), g.join(append([]string{"go"}, g.goArgs(true)...)...))
+		if r.Intn(2) == 0 && k < len(free) {
+			k += 1 + r.Intn(len(free)-k) // the next list extends this one
+		}
+		if r.Intn(3) == 0 {
+			out = append(out, g.join("teinewgame", strconv.Itoa(size)))
+		}
+	}
+	return out
+}
+
 // disorder: drop, swap, duplicate lines, insert malformed ones
 func (g *c17Gen) disorder(lines []string, n int) []string {
 	r := g.r
@@ -1368,6 +1428,9 @@ func (g *c17Gen) script(id int) *c17Script {
 		for c := 0; c < 1+r.Intn(3); c++ {
 			lines = g.corrupt(lines)
 		}
+	case k == 16 && r.Intn(2) == 0, k == 13:
+		s.family = "same-moves-other-start"
+		lines = g.sameMoves(maxSize)
 	case k < 17:
 		s.family = "quit-midway"
 		lines = g.session(maxSize)
@@ -1496,7 +1559,10 @@ func (g *c17Gen) probe(kind int) c17Probe {
 	if kind == 1 && len(ms)%2 == 0 { // kinds 0 and 1 are the same probe for White and for Black to move
 		ms = ms[:len(ms)-1]
 	}
-	if kind == 0 && len(ms)%2 == 1 {
+	if (kind == 0 || kind == 6) && len(ms)%2 == 1 {
+		ms = ms[:len(ms)-1]
+	}
+	if kind == 7 && len(ms)%2 == 0 { // kinds 6 and 7: one millisecond left, for White and for Black to move
 		ms = ms[:len(ms)-1]
 	}
 	words := []string{"position", "startpos", "moves"}
@@ -1527,6 +1593,21 @@ func (g *c17Gen) probe(kind int) c17Probe {
 		args = []string{"movetime", "3000"}
 		own, other = "500", "500"
 		want, oth = 100, 3000
+	case 6, 7: // one millisecond on the mover's clock: no thinking time at all, the context expires at once
+		own, other = "1", "600000"
+		want, oth = 0, -1
+	case 8: // ... whatever movetime says
+		args = []string{"movetime", "5000"}
+		own, other = "1", "600000"
+		want, oth = 0, -1
+	case 9: // ... and whatever the increment
+		own, other = "1", "600000"
+		want, oth = 0, -1
+		if white {
+			args = []string{"winc", "1000"}
+		} else {
+			args = []string{"binc", "1000"}
+		}
 	}
 	if white {
 		args = append(args, "wtime", own, "btime", other)
@@ -1611,7 +1692,7 @@ func c17Probes(c *ctx, bin string, n int) {
 	g := &c17Gen{r: c.r}
 	probes := make([]c17Probe, n)
 	for i := range probes {
-		probes[i] = g.probe(i % 6)
+		probes[i] = g.probe(i % 10)
 	}
 	const tol = 5 // ms: the first evaluation starts a little after the context was made
 	pending := make([]int, n)
@@ -1631,6 +1712,10 @@ func c17Probes(c *ctx, bin string, n int) {
 			p := probes[i]
 			ns, err := strconv.ParseInt(f[2], 10, 64)
 			lastObs[i] = resp[k]
+			if err == nil && ns == -2 && p.wantMs == 0 {
+				c.stat("clock_probes_ok", 1) // cut before the first evaluation: expired at once
+				continue
+			}
 			if err != nil || ns == -2 {
 				again = append(again, i) // panic / no evaluation: reported below
 				continue
@@ -1654,6 +1739,11 @@ func c17Probes(c *ctx, bin string, n int) {
 	}
 	for _, i := range pending {
 		p := probes[i]
+		if f := strings.Fields(lastObs[i]); p.wantMs == 0 && len(f) > 2 && f[2] == "-1" {
+			c.printf("ORACLE-FAIL clock-ignored | T %s | four attempts: the searcher's context never expired within 2600 ms (last observation %q) | the side to move has 1 ms left: the budget is 0 and the search must be stopped at once\n",
+				hex.EncodeToString([]byte(p.text)), lastObs[i])
+			continue
+		}
 		c.printf("ORACLE-FAIL clock-wiring | T %s | four attempts, last observation %q (ns until the searcher's context expired; -1 = not within 2600 ms) | the budget of the side to move: %d ms (the other side's clock would give %d ms)\n",
 			hex.EncodeToString([]byte(p.text)), lastObs[i], p.wantMs, p.otherMs)
 	}
@@ -1752,7 +1842,7 @@ func runC17(c *ctx) {
 	}
 	c17RunScripts(c, bin, "scripts-"+c.tier, scripts)
 	c17Budgets(c, bin)
-	c17Probes(c, bin, 6)
+	c17Probes(c, bin, 10)
 }
 
 func c17Fixed() []*c17Script {
@@ -1774,6 +1864,8 @@ func c17Fixed() []*c17Script {
 			mk(mode, 1, "teinewgame\nposition tps x5/x5/x,,x3/x5/x5 1 1\ngo\n"),
 			mk(mode, 1, "teinewgame 9\nposition startpos\ngo\n"),
 			mk(mode, 1, "teinewgame 6\nposition startpos moves a1 f6 Sc3 Cd4 c3+ \ngo wtime 600000 btime 600000 winc 1000 binc 1000\nquit\ngo\n"),
+			mk(mode, 1, "teinewgame 5\nposition tps x5/x5/x2,1,x2/x5/x,2,x3 1 2 moves a1 e5\ngo\nteinewgame 5\nposition startpos moves a1 e5\ngo\n"),
+			mk(mode, 1, "teinewgame 5\nposition startpos moves a1 e5\ngo\nposition tps x5/x5/x2,1,x2/x5/x,2,x3 1 2 moves a1 e5 a2\ngo\nposition tps x5/x,1,x3/x5/x5/x3,2,x 1 2 moves a1 e5 a2\ngo\n"),
 		)
 	}
 	return out
@@ -1796,7 +1888,10 @@ func c17Replay(c *ctx, bin string) {
 	}
 	f := strings.Fields(rp.Input)
 	switch {
-	case len(f) == 6 && f[0] == "S":
+	case (len(f) == 6 || len(f) == 5) && f[0] == "S":
+		if len(f) == 5 {
+			f = append(f, "") // the empty script
+		}
 		s := &c17Script{mode: f[1], family: "replay", rec: f[1] == "L"}
 		s.depth, _ = strconv.Atoi(f[2])
 		s.evk, _ = strconv.Atoi(f[3])
